@@ -272,8 +272,15 @@ class Inliner:
         # new module-level helpers of other package modules that this module imports by name (`from pkg.mod import _helper`)
         if loader is not None:
             for st in ast.walk(tree):
-                if isinstance(st, ast.ImportFrom) and st.module and st.level == 0 and st.module.startswith('singlecellmultiomics'):
-                    cand = [st.module.replace('.', '/') + '.py', st.module.replace('.', '/') + '/__init__.py']
+                if isinstance(st, ast.ImportFrom) and ((st.level == 0 and st.module and st.module.startswith('singlecellmultiomics')) or st.level > 0):
+                    if st.level:
+                        base = os.path.dirname(relpath)
+                        for _ in range(st.level - 1):
+                            base = os.path.dirname(base)
+                        modpath = os.path.join(base, *(st.module.split('.') if st.module else []))
+                    else:
+                        modpath = st.module.replace('.', '/')
+                    cand = [modpath + '.py', modpath + '/__init__.py']
                     for al in st.names:
                         if al.name == '*' or al.name[:1].isupper() or ('f', al.asname or al.name) in self.new:
                             continue
